@@ -216,6 +216,9 @@ def method_set(tier):
     for p in [A.ST, structs[1], A.Prim("f64"), A.Slice(A.Prim("u8"), "ref")]:
         for r in [A.ST, structs[1], A.Result(A.Prim("u8"), A.ST), A.Prim("u64")]:
             add("PR", [p], r, few=True)
+    # ---- a DiplomatOption that is cloned on the Rust side before it travels back (Clone must keep the arm)
+    for t in [A.Prim("u8"), A.Prim("u64"), A.Prim("f64"), A.Prim("bool")]:
+        add("CL", [A.Opt(t, "diplomat")], A.NullableRet(t, "diplomat"))
     # ---- DiplomatWrite
     add("W", [], None)
     add("W", [A.Prim("u8")], None)
@@ -289,7 +292,7 @@ W_CHUNKS = [[], ["a"], ["ab", "", "c"], ["é€", "\U0001d11e"], ["0123456789" *
 def cases_for(m):
     """value tuples (one per param) + selector values for returns"""
     few = m.get("few")
-    if m["kind"] in ("P", "PR", "W", "CB"):
+    if m["kind"] in ("P", "PR", "W", "CB", "CL"):
         pvals = []
         for t in m["params"]:
             vs = t.values()
@@ -315,6 +318,8 @@ def cases_for(m):
                 seen.add(repr(c))
                 res.append(c)
         return res
+    if m["kind"] == "CL":
+        return [(v,) for v in pvals[0]]
     if m["kind"] == "R":
         vals = m["ret"].values()
         seen, res = set(), []
@@ -383,6 +388,8 @@ def rust_method(m):
         arms = "\n".join("                %d => %s," % (j, m["ret"].rust_lit(v)) for j, v in enumerate(rv))
         return ("pub fn %s%s(%s)%s {\n            log_call(%d, |s| { %s });\n            match sel() {\n%s\n                _ => unreachable!(),\n            }\n        }"
                 % (m["name"], gen, ", ".join(params), _ret_sig(m["ret"]), i, dumps, arms))
+    if k == "CL":
+        return "pub fn %s(%s)%s { log_call(%d, |s| { %s }); x0.clone() }" % (m["name"], ", ".join(params), _ret_sig(m["ret"]), i, dumps)
     if k == "W":
         params.append("w: &mut DiplomatWrite")
         chunks = "\n".join("                %d => { %s }" % (ci, " ".join("let _ = w.write_str(\"%s\");" % "".join("\\u{%x}" % ord(x) for x in c) for c in ch))
@@ -563,6 +570,10 @@ def c_case(m, j, case):
             body.append("__auto_type r = %s(%s);" % (fn, ", ".join(args)))
             body.append('printf("%s %d %d | ");' % (k, i, j))
             body.append(m["ret"].c_dump("r"))
+    elif k == "CL":
+        body.append("__auto_type r = %s(%s);" % (fn, m["params"][0].c_lit(case[0], ctx)))
+        body.append('printf("CL %d %d | ");' % (i, j))
+        body.append(m["ret"].c_dump("r"))
     elif k == "W":
         ci, pv, rv = case
         args = [t.c_lit(v, ctx) for t, v in zip(m["params"], pv)]
@@ -610,6 +621,8 @@ def expected_line(m, j, case):
     i, k = m["i"], m["kind"]
     if k == "P":
         return "P %d %d | -%s | CALL %d:%s~" % (i, j, _mut_expected(m, case), i, ";".join(t.dump(v) for t, v in zip(m["params"], case)))
+    if k == "CL":
+        return "CL %d %d | %s | CALL %d:%s~" % (i, j, m["ret"].dump(case[0]), i, m["params"][0].dump(case[0]))
     if k == "R":
         return "R %d %d | %s | CALL %d:~" % (i, j, m["ret"].dump(case), i)
     if k == "PR":
@@ -764,6 +777,10 @@ def cpp_case(types, m, j, case):
             body.append("auto&& r = %s(%s);" % (fn, ", ".join(args)))
             body.append('printf("%s %d %d | ");' % (k, i, j))
             body.append(m["ret"].cpp_dump("r"))
+    elif k == "CL":
+        body.append("auto&& r = %s(%s);" % (fn, m["params"][0].cpp_lit(case[0], ctx)))
+        body.append('printf("CL %d %d | ");' % (i, j))
+        body.append(m["ret"].cpp_dump("r"))
     elif k == "W":
         ci, pv, rv = case
         args = [t.cpp_lit(v, ctx) for t, v in zip(m["params"], pv)]
